@@ -179,6 +179,19 @@ class Run:
                        for i, b in enumerate(self.docs)]
         self.pidfiles = [common.write_file(os.path.join(self.src, f"pidfile{i}"), b"twin pid file\n") for i in range(2)]
         self.factory = store_factory or (lambda: common.make_store(self.root, self.cfg))
+        # the current directory of the process holds DECOY files named like the cids the history uses (checksum-named partial
+        # exports are common in practice): whatever a content identifier happens to name relative to the current directory
+        # must never be read, served or removed by the store.  (The case runs with this directory as the process's current directory.)
+        self.cwd = os.path.join(self.work, "cwd")
+        os.makedirs(self.cwd, exist_ok=True)
+        self.decoys = {}
+        if case.get("decoys", True):
+            for b in self.contents:
+                self._decoy(self.cfg.digest(b))
+            old_cwd = os.getcwd()
+            os.chdir(self.cwd)          # for the whole case (observations between the steps included); restored by ctx.end_case()
+            if hasattr(ctx, "cleanups"):
+                ctx.cleanups.append(lambda: os.chdir(old_cwd))
         self.store = self.factory()
         self.stores = {0: self.store}  # op["inst"] selects another instance on the same directory
         self.model = Model(self.cfg)
@@ -244,6 +257,24 @@ class Run:
             except Exception:
                 pass
         self.open_streams = []
+
+    def _decoy(self, name):
+        if name and os.sep not in name and name not in self.decoys and len(name) < 200:
+            body = b"DECOY in the current directory, named like the cid " + name.encode("utf-8", "replace")
+            self.decoys[name] = body
+            common.write_file(os.path.join(self.cwd, name), body)
+
+    def decoy_problem(self):
+        """A decoy file of the current directory that is gone or altered."""
+        for name, body in self.decoys.items():
+            p = os.path.join(self.cwd, name)
+            try:
+                with open(p, "rb") as f:
+                    if f.read() != body:
+                        return f"the file {name[:20]}.. in the caller's current directory was altered"
+            except OSError:
+                return f"the file {name[:20]}.. in the caller's current directory (outside the store) was removed"
+        return None
 
     def rp(self, pid):
         """Resolve a symbolic pid."""
